@@ -148,6 +148,8 @@ def _run_basis(model: Model, clsname: str, modname: str, kwargs: Dict):
             return T(("abs", args[0]))
         if name == "numpy.broadcast_to":
             return args[0]
+        if name in ("numpy.ones", "numpy.zeros", "numpy.empty"):
+            return T((name.split(".")[1], "shape"))
         if name == "numpy.nonzero":
             return [T(("nonzero", args[0]))]
         if name.endswith("DiscreteField"):
